@@ -1,9 +1,120 @@
 import Driver.Util
-open Lean
+import Torf.Spec.Reuse
+open Lean Torf Torf.Reuse
 namespace Driver.C18
 
-/-- ops of property C18: `c18.<name>` -/
-def handle (op : String) (_j : Json) : Except String Json :=
-  throw s!"unknown op {op}"
+def getStrs (j : Json) (k : String) : Except String (List String) :=
+  (·.toList) <$> j.getObjValAs? (Array String) k
+
+def parseFile (j : Json) : Except String FileEnt := do
+  return ⟨← getStrs j "path", ← getNat j "size"⟩
+
+def parseCand (j : Json) : Except String Cand := do
+  return ⟨← getStr j "name", ← getBool j "single", ← (← getArr j "files").mapM parseFile,
+          ← getNat j "pl", ← getStrs j "hashes"⟩
+
+def parseLocal (j : Json) : Except String LocalPiece :=
+  match j with
+  | Json.str "missing" => pure .missing
+  | Json.str "sizeError" => pure .sizeError
+  | Json.str "readError" => pure .readError
+  | Json.str h => pure (.hash h)
+  | _ => throw "bad local piece"
+
+def parseItem (j : Json) : Except String Item := do
+  let kind ← getStr j "kind"
+  match kind with
+  | "pathError" => return .pathError
+  | "unreadable" => return .file .unreadable fun _ => .missing
+  | "undecodable" => return .file .undecodable fun _ => .missing
+  | "invalid" => return .file .invalid fun _ => .missing
+  | "torrent" =>
+    let c ← parseCand (← j.getObjVal? "cand")
+    let loc ← (← getArr j "loc").mapM parseLocal
+    return .file (.torrent c) fun i => loc.getD i .missing
+  | _ => throw s!"unknown item kind {kind}"
+
+def errJson : Err → Json
+  | .read => jstr "read"
+  | .bdecode => jstr "bdecode"
+  | .metainfo => jstr "metainfo"
+  | .verifyFileSize => jstr "verifyFileSize"
+  | .assertion => jstr "internal:AssertionError"
+  | .internal s => jstr s!"internal:{s}"
+
+def resJson : Res → Json
+  | .ok b => jobj [("ok", jbool b)]
+  | .raised e => jobj [("raised", errJson e)]
+
+def matchJson : Option Bool → Json
+  | none => Json.null
+  | some b => jbool b
+
+def callJson (c : Call) : Json :=
+  jarr [jnat c.item, jnat c.done, jnat c.total, matchJson c.isMatch, jopt errJson c.exc]
+
+def fileJson (f : FileEnt) : Json := jarr [jarr (f.path.map jstr), jnat f.size]
+
+def torJson (t : Tor) : Json :=
+  jobj [("pl", jnat t.pieceLength), ("pieces", jopt (fun hs => jarr (hs.map jstr)) t.pieces),
+        ("files", jarr (t.files.map fileJson)), ("name", jstr t.name)]
+
+def plain (s : String) : Bool := s != "" && s != "." && s != ".." && !s.contains '/'
+
+/-- hypothesis of the theorems / of model = spec: well-formed layouts on both sides (non-empty
+    files, pairwise distinct joined paths, multi-file entries have at least one component) -/
+def wfLayout (name : String) (single : Bool) (files : List FileEnt) : Bool :=
+  files.all (fun f => f.size != 0) && !files.isEmpty &&
+  (files.map (joined name)).eraseDups.length == files.length &&
+  (if single then files.length == 1 && files.all (fun f => f.path.isEmpty)
+   else files.all (fun f => !f.path.isEmpty && f.path.all (· != "")))
+
+def itemInfo (t : Tor) (it : Item) : Json :=
+  match it with
+  | .file (.torrent c) loc =>
+    jobj [("acceptable", jbool (acceptable t c loc)), ("faithful", jbool (faithful t c loc)),
+          ("wf", jbool (wfLayout c.name c.single c.files)),
+          ("samples", jnats (specSamples c)),
+          ("fileMatch", match isFileMatch t c with | .ok b => jbool b | .error _ => Json.null)]
+  | _ => jobj [("acceptable", jbool false), ("faithful", jbool false), ("wf", jbool true)]
+
+/-- op `c18.reuse` : {t, items, cb : null | [[item, isMatch]…] (calls that cancel), elapsed}
+    ↦ model (result, torrent afterwards, callback trace); per item the spec's verdicts
+    (acceptable, faithful); mustFind (premise of completeness); hyp -/
+def reuseOp (j : Json) : Except String Json := do
+  let tj ← j.getObjVal? "t"
+  let pieces : Option (List Digest) := (getStrs tj "pieces").toOption
+  let t : Tor := ⟨← getStr tj "name", ← getBool tj "single", ← (← getArr tj "files").mapM parseFile,
+                  ← getNat tj "pl", pieces, ← getNat tj "plMin", ← getNat tj "plMax"⟩
+  let items ← (← getArr j "items").mapM parseItem
+  let elapsed ← getBool j "elapsed"
+  let cbj ← j.getObjVal? "cb"
+  let cb : Callback ← match cbj with
+    | Json.null => pure none
+    | _ => do
+      let stops ← (← getArr j "cb").mapM fun s => do
+        let a ← s.getArr?
+        let it ← (a[0]!).getNat?
+        let m : Option Bool := match a[1]! with
+          | Json.bool b => some b
+          | _ => none
+        pure (it, m)
+      pure (some fun c => stops.contains (c.item, c.isMatch))
+  let r := reuse t items cb elapsed
+  let hyp := wfLayout t.name t.single t.files &&
+    items.all fun it => match it with
+      | .file (.torrent c) _ => wfLayout c.name c.single c.files
+      | _ => true
+  return jobj [("model", jobj [("res", resJson r.1), ("after", torJson r.2.1),
+                               ("calls", jarr (r.2.2.map callJson))]),
+               ("items", jarr (items.map (itemInfo t))),
+               ("mustFind", jbool (mustFind t cb.isSome items)),
+               ("total", jnat (total items)),
+               ("hyp", jbool hyp)]
+
+def handle (op : String) (j : Json) : Except String Json :=
+  match op with
+  | "c18.reuse" => reuseOp j
+  | _ => throw s!"unknown op {op}"
 
 end Driver.C18
